@@ -15,6 +15,7 @@
  * SPDX-License-Identifier: GPL-3.0-only
  */
 #include <arch/thread.h>
+#include <verif/rsv.h>
 
 /**
  * @fn thread_start(thr_id_t *thr_p, thr_run_fnc t_fnc, void *t_fnc_arg)
@@ -97,11 +98,19 @@ unsigned thread_cores_count(void)
 
 int thread_start(thr_id_t *thr_p, thr_run_fnc t_fnc, void *t_fnc_arg)
 {
+#ifdef ROOT_SIM_CORE_VERIF
+	if(rsv_threads_virtual())
+		return rsv_thread_start(thr_p, t_fnc, t_fnc_arg);
+#endif
 	return -(pthread_create(thr_p, NULL, t_fnc, t_fnc_arg) != 0);
 }
 
 int thread_wait(thr_id_t thr, thrd_ret_t *ret)
 {
+#ifdef ROOT_SIM_CORE_VERIF
+	if(rsv_threads_virtual())
+		return rsv_thread_join(&thr, ret);
+#endif
 	return -(pthread_join(thr, ret) != 0);
 }
 
